@@ -526,6 +526,10 @@ func (vc *VC) enterBlock(st *State, f *Frame, from, to *ssa.BasicBlock) []*State
 			// back edge: evaluate phis for the latch edge, assert invariant, end path
 			vc.evalPhis(st, f, from, to)
 			vc.loopInvariants(st, f, li, "inv-step")
+			if len(st.frames) == 1 || f.contract != nil {
+				// vacuity canary: some path must be able to complete an iteration
+				vc.cover(st, fmt.Sprintf("cover@%s-loop%d-step", f.fn.Name(), li.ordinal), vc.posOf(li.header.Instrs[0].Pos()))
+			}
 			st.dead = true
 			return nil
 		}
@@ -1344,12 +1348,25 @@ func (vc *VC) havocLoop(st *State, f *Frame, li *loopInfo) {
 					st.heaps[hn] = nh
 				}
 			}
+		case "kvit":
+			if mapSeen["kvit"] {
+				continue
+			}
+			mapSeen["kvit"] = true
+			vc.kvitCur(st)
+			vc.kvitVis(st)
+			for _, n := range []string{"KVITcur", "KVITvis"} {
+				st.heaps[n] = vc.fresh(n, st.heaps[n].Sort)
+			}
 		case "kv":
 			if mapSeen["kv"] {
 				continue
 			}
 			mapSeen["kv"] = true
 			for _, n := range kvHeapNames(st) {
+				if strings.HasPrefix(n, "KVIT") {
+					continue
+				}
 				st.heaps[n] = vc.fresh(n, st.heaps[n].Sort)
 			}
 		case "ghost":
